@@ -346,7 +346,7 @@ def first_diff(c_lines, m_lines):
         a = c_lines[i] if i < len(c_lines) else "<missing>"
         b = m_lines[i] if i < len(m_lines) else "<missing>"
         ta = a.split(" ", 2)
-        if len(ta) > 1 and ta[1].startswith("spec_"):
+        if len(ta) > 1 and (ta[1].startswith("spec_") or ta[1] == "secrets"):
             continue          # model-side only operations (the RFC specification)
         if a != b:
             return i, a, b
